@@ -729,7 +729,7 @@ func lane(c *ev.Ctx, name string, cfg gw.Config, n int, only func(e *catalog.Ent
 
 func Run(c *ev.Ctx) int {
 	c.Assume("HTTP/1.1 over loopback; posix backend with versioning dir; gateway runs as uid 4242 with RLIMIT_AS 4 GiB on a store owned by that uid")
-	c.Assume(fmt.Sprintf("date defects are %v away from now, expired presigned URLs are 2 h old with Expires=60; a presigned URL dated in the future is generated but not judged", skew))
+	c.Assume(fmt.Sprintf("date defects are %v away from now, expired presigned URLs are 2 h old with Expires=60, or expired 9 / 3 minutes ago (minutes beyond any clock difference on one machine); a presigned URL dated in the future is generated but not judged", skew))
 	c.Assume("bodies <= 1 MiB; every case starts from a store byte-identical to the seeded one (restored by copy + gateway restart after any change)")
 	c.Assume("a response that echoes strings the request itself contained is not a disclosure")
 	lane(c, "x", gw.Config{Versioning: true}, 14, nil)
